@@ -2693,7 +2693,7 @@ GR = dict(file="graph", variables="", err="Err",
           calls={"np.iinfo": ("iinfo_max", "IntType.max", IT), "np.argmax": ("fn", "argmaxFirst", [Lst(N)], N)},
           raises_table={"ValueError": "Err.tooLarge"})
 GR_SKELETON = (
-    "if not sps.issparse(AG) and (not isinstance(AG, np.ndarray)):\n    AG = np.asarray(AG)\nif sps.issparse(AG):\n"
+    "if not sps.issparse(AG):\n    AG = np.ascontiguousarray(AG)\nif sps.issparse(AG):\n"
     "    AG = AG.tocsr()\nDG = shortest_path(AG, directed=False, unweighted=True)\nif np.any(np.isinf(DG)):\n"
     "    warnings.warn('disconnected graph is approximated by its largest connected component')\n"
     "    _, components_by_vertex = connected_components(AG, directed=False)\n"
